@@ -11,7 +11,7 @@ use crate::elem::Elem;
 use crate::scenario::{Scenario, ViewDesc};
 use ndarray::{ArrayD, ArrayViewD, ArrayViewMutD, Axis, IxDyn, Slice};
 
-pub const PAD: usize = 640;
+pub const PAD: usize = 2048;
 const SENTINEL_INT: i128 = 77;
 
 pub struct World<T> {
